@@ -1127,3 +1127,73 @@ Lemma ins_ids_pos : forall pos gs ids x b, ids <> [] -> fst (insert_ids pos gs i
 Proof. intros. destruct ids; [congruence|reflexivity]. Qed.
 Lemma ins_ids_length : forall pos gs ids x b, length (snd (insert_ids pos gs ids x b)) = length gs.
 Proof. intros. destruct ids; cbn; [reflexivity|]. rewrite ins_from_length. apply set_nth_length. Qed.
+
+Lemma vmux_lt : forall s u, vmux s u = true -> (u < nsig s)%nat.
+Proof. intros s u E. unfold vmux in E. apply andb_true_iff in E. apply vsig_lt. tauto. Qed.
+
+Lemma inv_mux_insert : forall s u x b gids, InvA s -> vmux s u = true -> vsig s x = true ->
+  ok_op s (OMuxInsert u x b gids) -> InvA (fst (step_mux_insert s u x b gids)).
+Proof.
+  intros s u x b gids H Hu Hx Hop. cbn [ok_op] in Hop. unfold step_mux_insert.
+  destruct (if memb x (unames s u) then false else match pmsg s u with Some m => memb x (gnames s m) | None => false end); [exact H|].
+  destruct gids as [|g0 gr].
+  - (* fixed *)
+    destruct (memb x (usigs s u)) eqn:Ep; [exact H|].
+    assert (Hfree : ~ attached s x) by (destruct Hop as [A|[A _]]; [exact A|congruence]).
+    destruct (first_err (fun l => verify_insert (sz s) (rel s) (mux_gsize s u) l x b) (ugroups s u)) eqn:Ev; [exact H|].
+    destruct (insert_all (rel s) (ugroups s u) x b) as [pos gs] eqn:Ei. cbn [fst].
+    eapply InvA_core; [unfold lcore; autorewrite with reg; reflexivity|].
+    eapply InvA_core with (s := set_ugroups (set_rel s pos) (upd (ugroups s) u gs)); [reflexivity|].
+    assert (Egs : gs = snd (insert_all (rel s) (ugroups s u) x b)) by (rewrite Ei; reflexivity).
+    assert (Epos : pos = fst (insert_all (rel s) (ugroups s u) x b)) by (rewrite Ei; reflexivity).
+    destruct (ugroups s u) as [|l0 r] eqn:Eg.
+    + cbn in Egs, Epos. subst.
+      eapply (InvA_shrink_lists s); try reflexivity; [exact H| |].
+      * intros [m|u' g]; cbn [lay]; [apply sub_refl|]. unfold gget. cbn. unfold upd.
+        destruct (Nat.eqb_spec u' u) as [->|NE]; [rewrite Eg; apply sub_refl|apply sub_refl].
+      * intros u' Hu'. cbn. unfold upd. destruct (Nat.eqb_spec u' u); [reflexivity|apply (a_unalloc s H); exact Hu'].
+    + rewrite <- Eg in *. rewrite ins_all_pos in Epos by (rewrite Eg; discriminate). subst pos gs.
+      apply InvA_attach_groups; try assumption.
+      * apply vsig_lt; exact Hx.
+      * apply vmux_lt; exact Hu.
+      * intros A. contradiction.
+      * intros L HL. exfalso. apply Hfree. exists L. exact HL.
+      * apply ins_all_length.
+      * apply ins_all_spec; [exact H|intros A; contradiction|exact Ev].
+  - (* group ids *)
+    set (ids := dedup (g0 :: gr) []).
+    set (present := memb x (usigs s u)). set (fixed := ufixed s u x).
+    set (prev := match ugids s u x with Some l => l | None => [] end).
+    destruct (verify_ids s u x b present fixed prev ids) eqn:Ev; [exact H|].
+    destruct (insert_ids (rel s) (ugroups s u) ids x b) as [pos gs] eqn:Ei. cbn [fst].
+    eapply InvA_core; [unfold lcore; autorewrite with reg; reflexivity|].
+    eapply InvA_core with (s := set_ugroups (set_rel s pos) (upd (ugroups s) u gs)); [reflexivity|].
+    assert (Hne : ids <> []).
+    { unfold ids. cbn [dedup membZ existsb]. discriminate. }
+    assert (Egs : gs = snd (insert_ids (rel s) (ugroups s u) ids x b)) by (rewrite Ei; reflexivity).
+    assert (Epos : pos = fst (insert_ids (rel s) (ugroups s u) ids x b)) by (rewrite Ei; reflexivity).
+    rewrite ins_ids_pos in Epos by exact Hne. subst pos gs.
+    unfold verify_ids in Ev. pose proof (first_err_none _ _ Ev) as Hall. cbn beta in Hall.
+    assert (Hfacts : forall g, In g ids -> 0 <= g
+              /\ (present = true -> b = rel s x)
+              /\ verify_insert (sz s) (rel s) (mux_gsize s u) (gget s u (Z.to_nat g)) x b = None).
+    { intros g Hg. specialize (Hall g Hg). unfold verify_gid in Hall.
+      destruct (Z.ltb_spec g 0); [discriminate|]. destruct (mux_count s u <=? g); [discriminate|].
+      destruct (fixed || membZ g prev); [discriminate|].
+      destruct present; cbn [andb] in Hall.
+      - destruct (Z.eqb_spec b (rel s x)); cbn [negb] in Hall; [|discriminate].
+        split; [lia|split; [intros _; assumption|exact Hall]].
+      - split; [lia|split; [intros; discriminate|exact Hall]]. }
+    assert (Hb : attached s x -> b = rel s x).
+    { intros A. destruct Hop as [NA|[P _]]; [contradiction|].
+      destruct ids as [|g1 r1]; [congruence|]. destruct (Hfacts g1 (or_introl eq_refl)) as (_ & F & _). apply F. exact P. }
+    apply InvA_attach_groups; try assumption.
+    + apply vsig_lt; exact Hx.
+    + apply vmux_lt; exact Hu.
+    + intros L HL. destruct Hop as [NA|[_ C]]; [exfalso; apply NA; exists L; exact HL|apply C; exact HL].
+    + apply ins_ids_length.
+    + apply ins_ids_spec; try assumption.
+      * apply (proj1 (dedup_spec (g0 :: gr) [])).
+      * intros g Hg. apply (Hfacts g Hg).
+      * intros g Hg. apply (Hfacts g Hg).
+Qed.
